@@ -35,6 +35,11 @@
 (*     include_order   c/cpp include list in composite_types iteration order (closed = sorted)               *)
 (*     html_order      html nested-namespace listing in set order            (closed = natural_sort)         *)
 (*     filter_owner    plain filter name bound to whichever language registered last (closed = ln.<lang>.)   *)
+(*     template_dir_abspath   the `nunavut.template_sets` global (printed by the C++ base.j2, in reach of every  *)
+(*                     user template) names the user template directory by its resolved absolute path          *)
+(*                                                              (closed = package name and version only)       *)
+(*     template_dir_spelling  ... or by the path as spelled on the command line, i.e. relative to the cwd      *)
+(*                                                              (closed = likewise)                            *)
 (* The header comment (source path, time stamp, platform) is gated by embed_auditing_info in every target.   *)
 (* TLC checks  Refines  (the P-layer history machine accepts run 2 after run 1) for every namespace shape,    *)
 (* every permutation of every set iteration, every pair of ambient states.                                   *)
@@ -50,7 +55,7 @@ CONSTANTS
     Vary          \* ambient dimensions in which run 2 may differ from run 1, subset of {"clock", "loc", "cwd"}
 
 Gates == {"gzip_mtime", "ns_time", "model_abspath", "assert_abspath", "model_cache", "pp_carry", "include_order",
-          "html_order", "filter_owner"}
+          "html_order", "filter_owner", "template_dir_abspath", "template_dir_spelling"}
 
 (* the targets whose templates / filters sit behind a gate                                                  *)
 GateLangs == [g \in Gates |-> CASE g \in {"gzip_mtime", "ns_time", "model_abspath", "model_cache"} -> {"py"}
@@ -174,10 +179,13 @@ Prev == IF order = <<>> THEN 0 ELSE order[Len(order)][3]      \* trailing-blank 
 Lead == IF "pp_carry" \in open THEN Prev ELSE 0
 
 Header == [src |-> IF audit THEN A.loc ELSE 0, time |-> IF audit THEN A.clock ELSE 0]
+TSets == [loc |-> IF "template_dir_abspath" \in open THEN A.loc ELSE 0,       \* what nunavut.template_sets renders to
+          cwd |-> IF "template_dir_spelling" \in open THEN A.cwd ELSE 0]
 
 TypeContent(t, incl) ==
     [def      |-> t,
      hdr      |-> Header,
+     tsets    |-> TSets,
      assert   |-> IF lang \in {"c", "cpp"} /\ "assert_abspath" \in open THEN A.loc ELSE 0,
      includes |-> IF lang \in {"c", "cpp"} THEN incl ELSE <<>>,
      mpath    |-> IF lang = "py" /\ "model_abspath" \in open THEN A.loc ELSE 0,
@@ -188,6 +196,7 @@ TypeContent(t, incl) ==
 
 NsContent(n, nested) ==
     [ns      |-> n,
+     tsets   |-> TSets,
      members |-> SortT({t \in types : t[1] = n}),
      time    |-> IF lang = "py" /\ (audit \/ "ns_time" \in open) THEN A.clock ELSE 0,
      nested  |-> IF lang = "html" THEN nested ELSE <<>>,
